@@ -20,6 +20,10 @@ func main() {
 	dump := flag.String("dump", "", "developer aid: print the FoIR normal forms of the functions of a module directory (e.g. fc)")
 	dumpFn := flag.String("fn", "", "with -dump: only this function")
 	flag.Parse()
+	if *dump != "" && *dumpFn == "DIGESTS" {
+		rules.DumpDigests(core.NewRepo(*repo), *dump)
+		return
+	}
 	if *dump != "" && *dumpFn == "TEMPLATES" {
 		rules.DumpTemplates(core.NewRepo(*repo), *dump)
 		return
